@@ -483,6 +483,25 @@ for _pid in ("C01", "C03"):
                                  "+ executable Gallina model of the engine's own step function with invariant proofs and stepwise "
                                  "correspondence against the real engine")
 
+# ---- families added in round 2 (seeded-change rounds, DESIGN section 9)
+CHECKS["C01"]["text"] += (" Further seeded families: edit_vs_delete (a delete racing a newer edit of the same file) and "
+                          "tree_delete_vs_child_change (a folder emptied into a new folder and removed while the peer changes a child); "
+                          "Stream B also enumerates the path re-use scope streamB-v3-reuse.")
+CHECKS["C02"]["text"] += (" Further seeded families: edit_vs_delete, conflicts_faulty (the conflict histories with transient provider "
+                          "faults while the conflict is handled) and type_change_vs_edit (a file replaced by a folder while the peer edits it; "
+                          "judged by the covered-version guards only).")
+CHECKS["C03"]["text"] += " Stream B also enumerates the path re-use scope streamB-v3-reuse."
+CHECKS["C04"]["text"] += " Stream B also enumerates the path re-use scope streamB-v3-reuse (two-sided variants)."
+CHECKS["C05"]["text"] += (" Also run on every pass: a deterministic family in which the conflict is preceded by an interrupted sync of the "
+                          "same file (a superseded temp file exists when the resolver is called), and a probe of the unspecified answer "
+                          "(merged data, keep=True), on which the engine never goes quiet (open finding E-7).")
+CHECKS["C06"]["text"] += (" Every restarted engine talks to the providers through a new session (feed position at 'latest'); family "
+                          "restarts_after_fault stops the engine while a refused transfer is pending with its temp file recorded.")
+CHECKS["C12"]["text"] += (" The confinement family also draws provider pairs of different case sensitivity with a case-variant sibling of the "
+                          "root and root names where one root's path is a prefix of the other side's outside paths; two-sided families "
+                          "boundary_races and declined_races (a move across the boundary / to a declined path racing a peer change of the "
+                          "same object) are judged by the guards on engine actions.")
+
 ALL = ["C%02d" % i for i in range(1, 21)]
 
 
